@@ -1,6 +1,7 @@
 package harness
 
 import (
+	"bytes"
 	"compress/gzip"
 	"compress/zlib"
 	"fmt"
@@ -90,8 +91,21 @@ func (l *Ledger) AcquireGzipReader() *gzip.Reader {
 	return r
 }
 
+// poison is a valid gzip stream; a released reader is re-targeted at it, so a user that still
+// reads from the reader after releasing it gets these bytes instead of its own body (legal:
+// whoever acquires a reader has to Reset it onto its own source before use).
+var poison = func() []byte {
+	var b bytes.Buffer
+	w := gzip.NewWriter(&b)
+	w.Write(bytes.Repeat([]byte("POISON: this gzip reader was read after it had been released. "), 200))
+	w.Close()
+	return b.Bytes()
+}()
+
 func (l *Ledger) ReleaseGzipReader(r *gzip.Reader) {
-	l.release(r, "gzip.Reader")
+	if l.release(r, "gzip.Reader") {
+		r.Reset(bytes.NewReader(poison))
+	}
 	l.Inner.ReleaseGzipReader(r)
 }
 
